@@ -10,6 +10,7 @@ import (
 	"runtime/debug"
 	"strings"
 	"sync"
+	"syscall"
 	"time"
 )
 
@@ -24,6 +25,7 @@ type Outcome struct {
 	Enabled    []string    `json:"e,omitempty"` // events enabled in this state
 	Violations []Violation `json:"v,omitempty"`
 	Tags       []string    `json:"t,omitempty"` // distinct-outcome tags / coverage marks hit by this history
+	Nondet     string      `json:"n,omitempty"` // the replay diverged from what the parent state promised: infrastructure error
 	Died       bool        `json:"d,omitempty"` // the worker process died while executing this history
 	DiedMsg    string      `json:"m,omitempty"`
 }
@@ -150,6 +152,11 @@ func BFS(r *Result, cfg BFSConfig) {
 				} else {
 					r.NotExhaustive(fmt.Sprintf("worker died on %v: %s", jobs[i], firstLine(o.DiedMsg)))
 				}
+				continue
+			}
+			if o.Nondet != "" {
+				r.Add("nondeterministic_replays", 1)
+				r.NotExhaustive(fmt.Sprintf("replay of %v diverged: %s", jobs[i], o.Nondet))
 				continue
 			}
 			if o.Key == "" || seen[o.Key] {
@@ -327,8 +334,8 @@ func (s *subWorker) eval(h []string) Outcome {
 	select {
 	case rr := <-ch:
 		if rr.err != nil {
-			s.cmd.Wait()
-			msg := s.errb.String()
+			werr := s.cmd.Wait()
+			msg := fmt.Sprintf("worker exited: %v\n%s", werr, s.errb.String())
 			s.cmd = nil
 			return Outcome{Died: true, DiedMsg: msg}
 		}
@@ -339,7 +346,10 @@ func (s *subWorker) eval(h []string) Outcome {
 		}
 		return o
 	case <-time.After(s.cfg.PerRunLimit):
-		msg := s.errb.String()
+		// ask the Go runtime for a goroutine dump before killing the worker
+		s.cmd.Process.Signal(syscall.SIGQUIT)
+		time.Sleep(2 * time.Second)
+		msg := s.errb.head()
 		s.stop()
 		return Outcome{Died: true, DiedMsg: "per-run limit exceeded (hang)\n" + msg}
 	}
